@@ -84,6 +84,14 @@ fn parse_single_input(s: String) -> Result<f32, RuntimeError> {
     } else {
         s.parse::<f32>()
             .map_err(|e| RuntimeError::Other(format!("Could not parse {} as float: {}", s, e)))
+            .and_then(|f| {
+                // "nan", "inf", 1e999: not a value a SINGLE variable can hold
+                if f.is_finite() {
+                    Ok(f)
+                } else {
+                    Err(RuntimeError::Overflow)
+                }
+            })
     }
 }
 
@@ -93,6 +101,13 @@ fn parse_double_input(s: String) -> Result<f64, RuntimeError> {
     } else {
         s.parse::<f64>()
             .map_err(|e| RuntimeError::Other(format!("Could not parse {} as double: {}", s, e)))
+            .and_then(|f| {
+                if f.is_finite() {
+                    Ok(f)
+                } else {
+                    Err(RuntimeError::Overflow)
+                }
+            })
     }
 }
 
